@@ -279,6 +279,7 @@ def run(args, prop, meta, tier, seed, run_dir, t_start):
     distinct_overflow = 0
     inconclusive = []
     stage_notes = []
+    skipped_stages = set()
     timeout_s = meta.get("timeout", {}).get(tier, 900 if tier == "quick" else 7200)
 
     for st in stages:
@@ -305,6 +306,7 @@ def run(args, prop, meta, tier, seed, run_dir, t_start):
             log(err)
             if st.get("optional"):
                 stage_notes.append("stage %s skipped: %s" % (flavor, err.splitlines()[0]))
+                skipped_stages.add(flavor)
                 continue
             log("INCONCLUSIVE property=%s reason=build-failed flavor=%s" % (prop, flavor))
             return 2
@@ -380,6 +382,8 @@ def run(args, prop, meta, tier, seed, run_dir, t_start):
     floors = meta.get("floors", {}).get(tier, meta.get("floors", {}).get("any", {}))
     missing = []
     for key, minimum in floors.items():
+        if ":" in key and key.split(":")[0] in skipped_stages:
+            continue
         if merged["counters"].get(key, 0) < minimum:
             missing.append("%s=%d<%d" % (key, merged["counters"].get(key, 0), minimum))
     if merged["evaluations"] < 1:
